@@ -27,8 +27,10 @@ VARIABLES l,      \* index of the next event
           cnt     \* how often each predicate was actually evaluated (vacuity guard, goes into the evidence)
 
 Dead == [dead |-> TRUE]
-Limp == [dead |-> FALSE]      \* out of the specification's domain: only GeomOK (total on any record) and panics are judged
-Gone(x) == x = Dead \/ x = Limp
+LimpOf(st) == [dead |-> FALSE, st |-> st]   \* out of the specification's domain: only GeomOK (total on any record), panics and the
+                                            \* dump round trip (a relation between two LOGGED states) are judged; the last logged state is kept
+Gone(x) == "dead" \in DOMAIN x
+IsLimp(x) == Gone(x) /\ ~x.dead
 Ghost0 == [drained |-> <<>>,      \* every line handed out through Changes.scrollback (C14)
            ris |-> FALSE,         \* the session executed a hard reset
            resized |-> FALSE,     \* the session resized
@@ -262,7 +264,7 @@ Handle(ll, e) ==
   ELSE IF k \in {"fs", "fc", "rs"} THEN
     LET s == e.slot  prev == vts[s]  cur == e.st IN
     IF prev = Dead THEN [vts |-> vts, gh |-> gh, msgs |-> <<>>]
-    ELSE IF prev = Limp THEN [vts |-> vts, gh |-> gh, msgs |-> IF GeomOK(cur) THEN <<>> ELSE <<Msg("FAIL C02", ll, "geometry")>>]
+    ELSE IF IsLimp(prev) THEN [vts |-> [vts EXCEPT ![s] = LimpOf(cur)], gh |-> gh, msgs |-> IF GeomOK(cur) THEN <<>> ELSE <<Msg("FAIL C02", ll, "geometry")>>]
     ELSE
     LET fns == IF k = "rs" THEN <<>> ELSE Functions(prev.p, e.s)
         own == IF k = "rs" THEN {} ELSE IF fns = <<>> THEN {"C20"} ELSE Owners(fns)
@@ -275,7 +277,7 @@ Handle(ll, e) ==
         g1b == [g1 EXCEPT !.lastClean = e.clean]
         g2 == IF k = "rs" THEN [g1b EXCEPT !.resized = TRUE, !.snapResized = TRUE, !.savP.moved = TRUE, !.savA.moved = TRUE] ELSE g1b
     IN IF ~Sane(cur)
-       THEN [vts |-> [vts EXCEPT ![s] = Limp], gh |-> gh,
+       THEN [vts |-> [vts EXCEPT ![s] = LimpOf(cur)], gh |-> gh,
              msgs |-> Conformance(ll, k, r, fns, e2, own)
                       \o (IF GeomOK(cur) THEN <<>> ELSE <<Msg("FAIL C02", ll, "geometry")>>)
                       \o <<Msg("DRIFT", ll, "state outside the specification's domain: from here on only the geometry of this terminal's logged states and panics are judged")>>]
@@ -332,8 +334,14 @@ Handle(ll, e) ==
                    \o (IF gh[s].snap # NoLine /\ ~gh[s].snapResized /\ cur.t.alt /\ e.out # BufText(gh[s].snap.c)
                        THEN <<Msg("FAIL C16", ll, "text() changed during the excursion")>> ELSE <<>>)]
   ELSE IF k = "rel" THEN
-    LET a == vts[e.slots[1]]  b == vts[e.slots[2]]
-        alive == \A i \in 1..Len(e.slots) : ~Gone(vts[e.slots[i]])
+    LET (* the dump round trip is a relation between two logged states: it is also judged when the dumped terminal has
+           left the specification's domain (a buffer with a stale width, ...), as long as its rows can be read at all *)
+        StateOf(x) == IF IsLimp(x) THEN x.st ELSE x
+        limpOK == /\ e.name = "ObsEq" /\ \E i \in 1..Len(e.slots) : IsLimp(vts[e.slots[i]])
+                  /\ \A i \in 1..Len(e.slots) : LET x == vts[e.slots[i]] IN
+                       x # Dead /\ LET t == StateOf(x).t IN t.rows >= 1 /\ t.cols >= 1 /\ Len(t.buf.lines) >= t.rows /\ Len(t.other.lines) >= t.other.rows /\ t.other.rows >= 1
+        a == StateOf(vts[e.slots[1]])  b == StateOf(vts[e.slots[2]])
+        alive == limpOK \/ \A i \in 1..Len(e.slots) : ~Gone(vts[e.slots[i]])
         s1 == e.slots[1]
         (* a C11 failure is attributed to a listed finding only if the dump-time state is in the class AND the
            restored terminal is exactly what the pinned dump() (mirrored by Dump.tla) restores to *)
@@ -342,7 +350,10 @@ Handle(ll, e) ==
         gh2 == IF alive /\ e.name = "ObsEq" /\ gh[s1].dstage = "dumped"
                THEN [gh EXCEPT ![s1].dstage = "restored", ![s1].dexact = exactNow] ELSE gh
     IN [vts |-> vts, gh |-> gh2,
-        msgs |-> IF ~alive THEN <<>>
+        msgs |-> IF ~alive
+                 THEN (* the original panicked on a continuation that the restored terminal survived, or the other way round *)
+                      (IF e.name = "ObsEq" /\ Len(e.slots) = 2 /\ ((vts[e.slots[1]] = Dead) # (vts[e.slots[2]] = Dead))
+                       THEN <<Msg("FAIL C11", ll, "one of the two terminals (original / restored from its dump) panicked on the continuation, the other did not")>> ELSE <<>>)
                  ELSE CASE e.name = "ObsEq" -> (IF ObsEq(a, b) /\ HiddenEq(a, b) THEN <<>>
                                                  ELSE IF gh[s1].dclass # {} /\ exact THEN <<Msg("KNOWN C11", ll, "classes=" \o S(gh[s1].dclass))>>
                                                  ELSE <<Msg("FAIL C11", ll, "restored terminal differs: " \o S(DiffFields(Pub(a), Pub(b))) \o " hidden: " \o S(DiffFields(Hidden(a), Hidden(b)))
